@@ -14,7 +14,7 @@
 From SV Require Export Filter.FloatBits.
 
 (* panic sites *)
-Definition site_progress_assert : nat := 210.  (* debug_assert!(time >= self.filter_time) *)
+(* site 210 was debug_assert!(time >= self.filter_time) in progress_filtertime: removed by fix b057ba6 (F15) *)
 Definition site_range_unwrap : nat := 211.     (* range_size(): max_by/min_by on an empty iterator .unwrap() *)
 Definition site_clamp_assert : nat := 212.     (* f64::clamp / Ord::clamp assert!(min <= max) *)
 Definition site_hyst_neg : nat := 213.         (* -(precision_hysteresis as i8) overflow *)
@@ -246,7 +246,7 @@ Section Inner.
   Variable cfg : kcfg.
 
   Definition inner_progress (f : inner) (time : Z) (wander : float) : outcome inner :=
-    if time <? i_time f then (if dbg then Panic site_progress_assert else Ok f)
+    if time <? i_time f then Ok f      (* early return; the debug_assert of this condition was removed (F15) *)
     else
       let! d := t_diff dbg time (i_time f) in
       let dt := dur_seconds d in
@@ -439,24 +439,39 @@ Section Kalman.
         end
     end.
 
-  (* the frequency handed to Clock::set_frequency *)
-  Definition freq_command (s : kstate) (cur target : float) : float :=
-    cur +. clamp_adjustment cur (target -. base_freq_offset (k_run s) *. c_1e6) (c_max_freq_offset cfg).
+  (* the frequency handed to Clock::set_frequency (if finite): the clamped sum.
+     [None] = f64::clamp's assert!(min <= max) fails (negative or NaN bound) *)
+  Definition freq_command (s : kstate) (cur target : float) : option float :=
+    let b := c_max_freq_offset cfg in
+    fclamp (cur +. clamp_adjustment cur (target -. base_freq_offset (k_run s) *. c_1e6) b) (-. b) b.
 
+  (* change_frequency after fix 4d80470 (F12): final clamp of the command and a
+     finiteness guard at the actuator *)
   Definition change_frequency (s : kstate) (target : float) : CM kstate :=
     match k_cur s with
     | Some cur =>
-        let error_ppm := clamp_adjustment cur (target -. base_freq_offset (k_run s) *. c_1e6) (c_max_freq_offset cfg) in
-        let* r := mcall (SetFreq (cur +. error_ppm)) in
-        match r with
-        | Some time =>
-            let* run := mlift (base_freq_steer dbg cfg (k_run s) error_ppm time (k_wander s)) in
-            let* wan := mlift (base_freq_steer dbg cfg (k_wan s) error_ppm time (k_wander s)) in
-            mret (set_cur (set_filters s run wan) (Some (cur +. error_ppm)))
-        | None => mret s
+        match freq_command s cur target with
+        | None => mlift (Panic site_clamp_assert)
+        | Some f =>
+            if is_fin f then
+              let error_ppm := f -. cur in
+              let* r := mcall (SetFreq f) in
+              match r with
+              | Some time =>
+                  let* run := mlift (base_freq_steer dbg cfg (k_run s) error_ppm time (k_wander s)) in
+                  let* wan := mlift (base_freq_steer dbg cfg (k_wan s) error_ppm time (k_wander s)) in
+                  mret (set_cur (set_filters s run wan) (Some f))
+              | None => mret s
+              end
+            else mret s          (* "Not programming non-finite clock frequency" *)
         end
     | None => mret s
     end.
+
+  (* HISTORIC (before fix 4d80470): the command was cur + clamp_adjustment(..) itself,
+     which can exceed the bound by one ulp (F12).  Kept only for the refutation witness. *)
+  Definition freq_command_prefix (s : kstate) (cur target : float) : float :=
+    cur +. clamp_adjustment cur (target -. base_freq_offset (k_run s) *. c_1e6) (c_max_freq_offset cfg).
 
   Definition kalman_step (s : kstate) (offset : float) : CM kstate :=
     let* d := mlift (d_from_seconds dbg (-. offset)) in
